@@ -166,3 +166,15 @@ def kani_harnesses(cfg):
         return []
     return [{'id': 'K7-ack-deadline-real-std', 'harness': 'k7_ack_deadline_window', 'timeout_s': 1800,
              'desc': 'AckDeadline::new on the real std/tokio Instant and Duration (arbitrary clock, 4 s window after EPOCH): never >= 1 us early, < 100 ms late - cross-check of the integer-mode time contracts'}]
+
+
+_obligations_c04b = obligations
+
+
+def obligations(ctx, cfg):
+    # PulledMessage::modify_deadline / the tracker's modify: an extension moves the expiry, it does not add a second one
+    from props.C05 import TrackerModify
+    q = cfg['tier'] == 'quick'
+    tm = TrackerModify(ctx, 2 if q else 3, 2)
+    tm.id = 'C04.h-extension-moves-the-expiry'
+    return _obligations_c04b(ctx, cfg) + [tm]
